@@ -232,6 +232,66 @@ def check_incdec(ctx, t, op, log):
     ctx.expect(paths, ret=1)
 
 
+# ------------------------------------------------------------------ sandbox location to sandbox location, different integer types
+def vv_source(pairs, sbx):
+    s = [C.PRELUDE_SB, "using S = %s;" % sbx]
+    for t, u in pairs:
+        s.append("K void k_vv_%s_%s(uint64_t base, uint64_t cd, uint64_t cs) { S::g_base = base; auto pd = mk_tainted<%s*, S>(cd); auto ps = mk_tainted<%s*, S>(cs); *pd = *ps; }"
+                 % (t.tag, u.tag, t.cxx, u.cxx))
+    return "\n".join(s) + "\n"
+
+
+def check_vv(ctx, t, u, log):
+    k = "k_vv_%s_%s" % (t.tag, u.tag)
+    base = ctx.sandbox_base(log)
+    size = 1 << log
+    cd = ctx.sym("cd", 64)
+    cs = ctx.sym("cs", 64)
+    gd, gs = t.gbits // 8, u.gbits // 8
+    ctx.assume(z3.UGE(cd, base), z3.ULE(cd - base, BV(size - 8, 64)), z3.UGE(cs, base), z3.ULE(cs - base, BV(size - 8, 64)))
+    ctx.assume(z3.Or(z3.UGE(cd, cs + 8), z3.UGE(cs, cd + 8)))
+    mem0 = ctx.eng.initial_memory()
+    raw = z3.Concat(*[z3.Select(mem0, cs + BV(i, 64)) for i in reversed(range(gs))]) if gs > 1 else z3.Select(mem0, cs)
+    V = ext(raw, u.signed)
+    inr = z3.And(V >= t.gmin, V <= t.gmax)
+    paths = ctx.run(k, [base, cd, cs])
+    for p in paths:
+        if p.status == "abort":
+            ctx.require(p, z3.Not(inr), "a copy between two sandbox locations aborts only when the source value is not representable in the destination's guest type")
+        elif p.status == "ret":
+            got = z3.Concat(*[z3.Select(p.mem, cd + BV(i, 64)) for i in reversed(range(gd))]) if gd > 1 else z3.Select(p.mem, cd)
+            ctx.require(p, z3.And(inr, ext(got, t.signed) == V), "the destination holds the mathematical value of the source (no silent truncation or sign change)")
+    ctx.only(paths, "ret", "abort")
+    ctx.expect(paths, ret=1)
+
+
+def check_range_wide(ctx, t, nmax=3):
+    """B32W: copy_and_verify_range of elements that are wider in the guest than in the application: each element is range-checked"""
+    k = "k_cavr_%s" % t.tag
+    base = ctx.sandbox_base(32)
+    p = ctx.sym("p", 64)
+    n = ctx.sym("n", 32)
+    gb, ab = t.gbits // 8, t.bits // 8
+    ctx.assume(z3.UGE(n, 1), z3.ULE(n, nmax))
+    ctx.assume(z3.UGE(p, base), z3.ULE(p - base + zext(n, 64) * gb, BV(1 << 32, 64)))
+    mem0 = ctx.eng.initial_memory()
+    els = [ext(z3.Concat(*[z3.Select(mem0, p + BV(j * gb + i, 64)) for i in reversed(range(gb))]), t.signed) for j in range(nmax)]
+    fits = [z3.And(e >= t.min, e <= t.max) for e in els]
+    allfit = z3.And(*[z3.Implies(z3.UGT(n, BV(j, 32)), fits[j]) for j in range(nmax)])
+    paths = ctx.run(k, [base, p, n])
+    for q in paths:
+        if q.status == "ret":
+            lg = [e for e in (q.user.get("log") or []) if e[0] == 5]
+            ctx.require(q, allfit, "a range copy is delivered only when every element is representable in the application type")
+            if lg:
+                first = lg[0][2] if not isinstance(lg[0][2], int) else BV(lg[0][2], 64)
+                ctx.require(q, ext(z3.Extract(t.bits - 1, 0, first), t.signed) == els[0], "the first delivered element has the guest element's value")
+        elif q.status == "abort":
+            ctx.require(q, z3.Not(allfit), "the range copy aborts only when some element does not fit the application type")
+    ctx.only(paths, "ret", "abort", "alloc-fail")
+    ctx.expect(paths, ret=1, abort=1)
+
+
 WIDE = [C.IT("int", "int", 32, True, 64), C.IT("uint", "unsigned int", 32, False, 64), C.IT("short", "short", 16, True, 32), C.IT("ushort", "unsigned short", 16, False, 32)]
 
 
@@ -308,6 +368,17 @@ def jobs(tier, seed):
         chks = [dict(name="B32 store %s <- plain %s" % (t.tag, u.tag), fn=check_xstore, kw=dict(t=t, u=u, log=32)) for u in srcs if u.tag != t.tag]
         chks += [dict(name="B32 %s on sandbox-resident %s" % (op, t.tag), fn=check_incdec, kw=dict(t=t, op=op, log=32)) for op in ("inc", "dec")]
         out.append(Job("C06_x_B32_" + t.tag, x_source([t], srcs, "B32"), chks))
+    vvp = [(by[a], by[b]) for a, b in (("long", "llong"), ("ulong", "llong"), ("short", "long"), ("int", "uint"), ("uchar", "int"), ("llong", "ulong"), ("uint", "short"), ("long", "long"))]
+    if tier == "thorough":
+        vvp = [(a, b) for a in dsts for b in dsts]
+    for grp in C.chunks(vvp, 8):
+        out.append(Job("C06_vv_%s_%s" % (grp[0][0].tag, grp[0][1].tag), vv_source(grp, "B32"),
+                       [dict(name="B32 *p_%s = *p_%s" % (t.tag, u.tag), fn=check_vv, kw=dict(t=t, u=u, log=32)) for t, u in grp], native=False))
+    wr = ("#include \"verif_sandbox.hpp\"\nusing S = B32W;\n#include \"rbtree_model.cpp\"\nusing namespace rlbox;\n" +
+          "".join("K uint64_t k_cavr_%s(uint64_t base, uint64_t p, uint32_t n) { S::g_base = base; auto t = mk_tainted<%s*, S>(p); "
+                  "return (uint64_t)t.copy_and_verify_range([](std::unique_ptr<%s[]> v) { env_log(5, (uint64_t)v.get(), v ? (uint64_t)v[0] : 0, 0); return v ? v[0] : 0; }, n); }\n"
+                  % (t.tag, t.cxx, t.cxx) for t in WIDE))
+    out.append(Job("C06_B32W_range", wr, [dict(name="B32W copy_and_verify_range %s (narrowing per element)" % t.tag, fn=check_range_wide, kw=dict(t=t), unwind=12) for t in WIDE], native=False))
     wchk = []
     for t in WIDE:
         wchk += [dict(name="B32W load %s (narrowing)" % t.tag, fn=check_load_wide, kw=dict(t=t)), dict(name="B32W store %s (widening)" % t.tag, fn=check_store_wide, kw=dict(t=t))]
